@@ -212,7 +212,7 @@ def conformance(jobs):
             for ln in f:
                 if ln.startswith('{"e":"x"'):
                     xn += 1
-                elif xn in want and ln.startswith('{"e":"alloc"') and '"r":"ok"' in ln:
+                elif xn in want and ln.startswith(('{"e":"alloc"', '{"e":"ablk"')) and '"r":"ok"' in ln:
                     e = json.loads(ln)
                     got.setdefault(xn, []).append((e["b"], e["off"]))
         def ranks(seq):
